@@ -103,7 +103,7 @@ def closure_scenario(sid, pattern, n_strategies=2, second_market=None, place=Tru
                 ups.append({"pt": t0 + 1000 * k, "version": 1 + k, "books": {"11": _bk([[2.0, 10]], [[2.4, 10]], [[2.2, 2.0 * k]]), "12": _bk([[3.0, 10]], [[3.4, 10]], [])}})
             else:
                 # a market that re-opens is settled again, possibly with an amended result: the closures after a re-opening name the other winner
-                amended = "O" in pat[:k] and "C" in pat[:k] and pat[:k].rstrip("C").count("C") > 0
+                amended = "C" in pat[:k]        # any closure after the first one (with or without a re-opening in between) names the other winner
                 res = {"11": ["LOSER", None, None], "12": ["WINNER", None, None]} if amended else {"11": ["WINNER", None, None], "12": ["LOSER", None, None]}
                 ups.append({"pt": t0 + 1000 * k, "status": "CLOSED", "version": 1 + k, "rstat": res, "books": {}, "force_md": True})
         return {"id": mid, "event_id": "30000001", "market_type": "WIN", "winners": 1, "bsp": True, "persistence": True, "runners": [11, 12], "updates": ups}
@@ -151,8 +151,43 @@ def exposure_replace(sid, side="LAY", price=1.5, new_price=50.0, size=10.0, limi
             "strategies": [{"name": "A", "max_order_exposure": limit, "max_selection_exposure": limit, "max_market_exposure": limit, "max_live_trade_count": 1, "script": script}]}
 
 
+def exposure_cancel_then_place(sid, partial=None, gap=100):
+    """an acknowledged resting order uses the whole selection limit; in one callback the strategy cancels it (wholly or
+    in part) and places another order of the same trade on the selection: the cancel is only requested, the remainder
+    can still fill, so the new order must be judged with it counted in full"""
+    def up(pt, trd=0.0):
+        return {"pt": pt, "version": 1, "books": {"11": _bk([[2.0, 50]], [[2.2, 50]], [[2.1, trd]]), "12": _bk([[3.0, 10]], [[3.4, 10]], [])}}
+    ups = [up(0), up(1000), up(2000), up(2000 + gap, 40.0), up(4000, 40.0), up(5000, 80.0)]
+    c = {"op": "cancel", "o": "o1"}
+    if partial:
+        c["reduction"] = partial
+    script = {"1.100000001|0|book": [{"op": "place", "o": "o1", "t": "t1", "sel": 11, "side": "BACK", "price": 2.1, "size": 10.0}],
+              "1.100000001|2000|book": [c, {"op": "place", "o": "o2", "t": "t1", "sel": 11, "side": "BACK", "price": 2.1, "size": 10.0}]}
+    return {"id": sid, "cfg": {}, "markets": [{"id": "1.100000001", "event_id": "30000001", "market_type": "WIN", "winners": 1, "bsp": True, "persistence": True, "runners": [11, 12], "updates": ups}],
+            "strategies": [{"name": "A", "max_selection_exposure": 10.0, "max_order_exposure": 10.0, "multi_order_trades": True, "max_live_trade_count": 1, "script": script}]}
+
+
+def exposure_green_then_lay(sid, market_limit=100.0):
+    """selection limit and market limit both set; a selection that is green on both outcomes is laid again: nothing is
+    added on that selection, but the profit-if-it-wins that covered the stakes on the other runners goes"""
+    def up(pt):
+        books = {str(r): _bk([[3.0, 500], [2.0, 500]], [[4.0, 500]], []) for r in (11, 12, 13)}
+        books["11"] = _bk([[3.0, 500], [2.0, 500]], [[2.0, 500], [4.0, 500]], [])
+        return {"pt": pt, "version": 1, "books": books}
+    ups = [up(1000 * k) for k in range(8)]
+    seq = [("g1", 11, "BACK", 3.0, 60.0), ("g2", 11, "LAY", 2.0, 90.0), ("g3", 12, "BACK", 3.0, 60.0), ("g4", 13, "BACK", 3.0, 40.0), ("g5", 11, "LAY", 2.0, 30.0)]
+    script = {}
+    for i, (lab, sel, side, price, size) in enumerate(seq):
+        script["1.100000001|%d|book" % (1000 * i)] = [{"op": "place", "o": lab, "t": "t" + lab, "sel": sel, "side": side, "price": price, "size": size}]
+    return {"id": sid, "cfg": {}, "markets": [{"id": "1.100000001", "event_id": "30000001", "market_type": "WIN", "winners": 1, "bsp": True, "persistence": True, "runners": [11, 12, 13], "updates": ups}],
+            "strategies": [{"name": "A", "max_selection_exposure": 200.0, "max_order_exposure": 200.0, "max_market_exposure": market_limit, "max_live_trade_count": 5, "script": script}]}
+
+
 def family_exposure(tier, seed):
-    out = [exposure_replace("x_exp_lay_up"), exposure_replace("x_exp_lay_small", new_price=1.6), exposure_replace("x_exp_back", side="BACK", price=50.0, new_price=40.0, size=8.0),
+    out = [exposure_cancel_then_place("x_exp_cancel_place"), exposure_cancel_then_place("x_exp_cancel_part_place", partial=4.0),
+           exposure_cancel_then_place("x_exp_cancel_place_slow", gap=500),
+           exposure_green_then_lay("x_exp_green_lay"), exposure_green_then_lay("x_exp_green_lay_90", market_limit=90.0),
+           exposure_replace("x_exp_lay_up"), exposure_replace("x_exp_lay_small", new_price=1.6), exposure_replace("x_exp_back", side="BACK", price=50.0, new_price=40.0, size=8.0),
            exposure_replace("x_exp_lay_nofill", fill=False),
            sp_lay_rounding("x_exp_sp_400"), sp_lay_rounding("x_exp_sp_3", sp=3.37, size=7.0, price=2.5)]
     return out
@@ -453,7 +488,10 @@ def family_removal_variants(tier, seed):
                         {"op": "place", "o": "r2", "t": "tr2", "sel": 12, "side": "LAY", "type": "MARKET_ON_CLOSE", "size": 30.0},       # SP lay liability on another runner
                         {"op": "place", "o": "r3", "t": "tr3", "sel": 13, "side": "LAY", "type": "MARKET_ON_CLOSE", "size": 12.5},
                         {"op": "place", "o": "r4", "t": "tr4", "sel": 11, "side": "BACK", "price": 4.0, "size": 3.0},                     # on the runner that goes
-                        {"op": "place", "o": "r5", "t": "tr5", "sel": 13, "side": "BACK", "price": 4.1, "size": 6.0, "pers": "PERSIST"}]  # rests, fills partly
+                        {"op": "place", "o": "r5", "t": "tr5", "sel": 13, "side": "BACK", "price": 4.1, "size": 6.0, "pers": "PERSIST"},  # rests, fills partly
+                        {"op": "place", "o": "r6", "t": "tr6", "sel": 11, "side": "LAY", "type": "MARKET_ON_CLOSE", "size": 8.0},         # SP lay on the runner that goes first
+                        {"op": "place", "o": "r7", "t": "tr7", "sel": 14, "side": "BACK", "price": 4.0, "size": 2.0},                     # on the runner that goes second
+                        {"op": "place", "o": "r8", "t": "tr8", "sel": 14, "side": "LAY", "price": 3.5, "size": 2.0, "pers": "PERSIST"}]   # resting on it
                 m = {"id": "1.100000001", "event_id": "30000001", "market_type": mtype, "winners": winners, "bsp": True, "persistence": True, "runners": [11, 12, 13, 14], "updates": ups}
                 out.append({"id": "rv%d" % k, "cfg": {}, "markets": [m], "strategies": [{"name": "A", "max_live_trade_count": 1000, "script": {"1.100000001|0|book": acts}}]})
     return out
